@@ -175,6 +175,14 @@ pub fn run(ctx: &Ctx) -> i32 {
         n: if ctx.quick() { 20_000 } else { 500_000 },
     };
     acc.pool(&es, "c11err", false);
+    // language-server sessions (edit histories of C15's workload): every error the library locates must be
+    // published for the document of its module with exactly the range of its span in the client's text
+    let hs = super::c15::Histories {
+        n: if ctx.quick() { 400 } else { 8000 },
+        max_steps: if ctx.quick() { 25 } else { 60 },
+        located_only: Some("C11"),
+    };
+    acc.pool(&hs, "c15loc-c11", true);
     // Canary: the token walker must flag a text/position table that does not tile.
     let (toks, _, _) = check_tokens("let a = num;");
     let canary = toks.len() == 8 && toks.iter().filter(|t| !t.trivia).count() == 5;
